@@ -76,6 +76,11 @@ class C03(XsProp):
             for c1 in consumers:
                 ev = 'eval %s | stack | out' % hexsrc(c1)
                 cs.append('xs limits 4002 - - | eval %s | clone | %s | use 1 | %s' % (hexsrc(pre), ev, ev))
+        # captured output belongs to the copy that printed it
+        for i in range(20):
+            a_, b_ = rng.choice(['"A" print', '1 println', '"x y" print 2 print']), rng.choice(['"B" print', '[ 7 ] println', '"zz" println'])
+            cs.append('xs limits 4003 - - | intercept on | eval %s | clone | eval %s | use 1 | eval %s | out | use 0 | out | use 1 | out' % (
+                hexsrc('"pre" print'), hexsrc(a_), hexsrc(b_)))
         # a snapshot taken while recording: the copy has the same undo history and rewinds exactly like the original
         progs = ['0 var x : sq dup * ; 3 0 do I sq x + ! x loop x', '[ 10 20 30 ] foreach I loop 7', '1 2 over rot swap drop + 5 case 5 of 1 endof 2 endcase',
                  ': f local a a 1 + local a a ; 4 f 0 begin 1 + dup 3 > until', '|ff 0f| open-bitstr 4 bits drop u4 close-bitstr "s" length']
@@ -207,6 +212,15 @@ class C03(XsProp):
             st = c.split(' | ')
             ou = o.split(' | ')
             if len(st) != len(ou):
+                continue
+            if c.startswith('xs limits 4003 '):
+                n += 1
+                srcs = src_of(c)
+                # outputs: the copy printed pre+B, the original pre+A, and a second read of the copy is empty
+                if not (ou[-5].startswith('out:') and ou[-3].startswith('out:') and ou[-1] in ('out:-', 'out:')) or ou[-5] == ou[-3] or \
+                        len(ou[-5]) <= 4 or len(ou[-3]) <= 4:
+                    fails.append(('case: %s\nsources: %s\ncopy: %s\noriginal: %s\ncopy-again: %s' % (c, ' ;; '.join(srcs), ou[-5], ou[-3], ou[-1]),
+                                  'captured output is shared between an interpreter and its clone'))
                 continue
             if c.startswith('xs limits 4002 '):
                 n += 1
